@@ -10,7 +10,7 @@ export GOFLAGS=-mod=mod GOPROXY=off GOSUMDB=off GOTOOLCHAIN=local
 cd $WT || exit 2
 git checkout -q -- . ; git clean -fdq
 git apply $SD/patch.diff || { echo "PATCH DOES NOT APPLY"; exit 1; }
-demo=$(ls $SD/*_test.go | head -1)
+demo=$(ls $SD/*_test.go $SD/*_test.go.txt 2>/dev/null | head -1)
 pkgline=$(grep -m1 '^package ' $demo | awk '{print $2}')
 case $pkgline in
   tests) dir=tests;; fix) dir=fix;; fix_test) dir=fix;; encoding|encoding_test) dir=fix/encoding;; simplefixgo|simplefixgo_test) dir=.;; session|session_test) dir=session;; *) if [[ "$ID" == C12* ]]; then dir=generator/zzdemo_${pkgline%_test}; mkdir -p $dir; else dir=tests; fi;;
